@@ -588,3 +588,58 @@ func (e *tfenv) probe(step int, act string, fi int, exp map[string]any) common.R
 	}
 	return nil
 }
+
+// Auxiliary probe (not part of the TLA+ conformance): prollyBinSearch, the interpolation search under
+// archiveReader.findIndex, against its documented contract ("index of the first instance of the target, else the
+// index it would be inserted at") for EVERY sorted slice of length <= maxlen over a dense / extreme value domain.
+func runBinSearchCase(c map[string]any) common.Result {
+	var dom []uint64
+	for _, v := range c["domain"].([]any) {
+		s := v.(string)
+		var x uint64
+		fmt.Sscanf(s, "%x", &x)
+		dom = append(dom, x)
+	}
+	sort.Slice(dom, func(i, j int) bool { return dom[i] < dom[j] })
+	maxlen := common.Int(c["maxlen"])
+	n := 0
+	var bad string
+	var rec func(cur []uint64, from int)
+	rec = func(cur []uint64, from int) {
+		if bad != "" {
+			return
+		}
+		if len(cur) > 0 {
+			for _, t := range dom {
+				want := sort.Search(len(cur), func(i int) bool { return cur[i] >= t })
+				got := func() (g int) {
+					defer func() {
+						if p := recover(); p != nil {
+							g = -1
+							bad = fmt.Sprintf("panic %v on slice %x target %x", p, cur, t)
+						}
+					}()
+					return prollyBinSearch(cur, t)
+				}()
+				n++
+				if bad == "" && got != want {
+					bad = fmt.Sprintf("prollyBinSearch(%x, %x) = %d, first index with value >= target is %d", cur, t, got, want)
+				}
+				if bad != "" {
+					return
+				}
+			}
+		}
+		if len(cur) == maxlen {
+			return
+		}
+		for i := from; i < len(dom); i++ {
+			rec(append(append([]uint64{}, cur...), dom[i]), i)
+		}
+	}
+	rec(nil, 0)
+	if bad != "" {
+		return common.Result{"ok": false, "fp": "prollyBinSearch:contract", "detail": bad, "evals": n}
+	}
+	return common.Result{"ok": true, "evals": n}
+}
